@@ -64,7 +64,7 @@ def run(modname, tier, seed, opts=None):
     t0 = time.time()
     layers = mod.layers(tier) if hasattr(mod, "layers") else ["rel"]
     for layer in layers:
-        if layer in ("rel", "dbg", "asan"):
+        if layer.split(":")[0] in ("rel", "dbg", "asan"):
             build.ensure(layer, quiet=False)
     nshards = int(os.environ.get("VERIF_SHARDS", str(min(16, os.cpu_count() or 4))))
     if hasattr(mod, "shards"):
